@@ -33,8 +33,14 @@ struct Case<'a> {
 }
 
 fn check(rep: &mut Report, c: &Case) {
+    let lite = c.full.generate_lite_block(c.keys.clone());
+    check_lite(rep, c, lite, "");
+}
+
+/// `lite` is what was produced for `c.keys` (by generate_lite_block directly, or by the node's
+/// HTTP route: `origin` = "|served=http-route")
+fn check_lite(rep: &mut Report, c: &Case, lite: Block, origin: &str) {
     let full = c.full;
-    let lite = full.generate_lite_block(c.keys.clone());
     rep.eval();
     let n = full.transactions.len();
     let placeholders: Vec<u32> = lite
@@ -62,7 +68,10 @@ fn check(rep: &mut Report, c: &Case) {
         "keys_hex": c.keys.iter().map(hex::encode).collect::<Vec<_>>(),
     });
     let mut fail = |clause: &str, detail: String| {
-        rep.violation(&format!("C18|clause={}|class={}", clause, class), &detail, witness.clone());
+        // what the receiver can recompute from placeholders that crossed the wire does not depend
+        // on who produced the lite block: same clause (and same known findings) for both origins
+        let o = if clause == "merkle-recompute-after-wire" { "" } else { origin };
+        rep.violation(&format!("C18|clause={}|class={}{}", clause, class, o), &detail, witness.clone());
     };
     // 1. identity and header
     if lite.id != full.id || lite.hash != full.hash || lite.signature != full.signature || header(&lite) != header(full)
@@ -89,14 +98,16 @@ fn check(rep: &mut Report, c: &Case) {
     if covered != n as u64 {
         fail("replacement-count", format!("placeholders + transactions cover {} positions, block has {}", covered, n));
     }
-    // 4. commitment recomputable from the lite block as generated
-    if n > 0 {
+    // 4. commitment recomputable from the lite block as generated (a served block has already
+    // crossed the wire: clause 6 below)
+    if n > 0 && origin.is_empty() {
         let root = MerkleTree::generate(&lite.transactions).map(|t| t.get_root_hash()).unwrap_or([0; 32]);
         if root != full.merkle_root {
             fail("merkle-recompute", "merkle root recomputed from the lite block's transactions differs from the header's".into());
         }
     }
     // 5. wire round trip keeps the hash; 6. commitment recomputable on the receiving side
+    let mut lite = lite;
     let bytes = lite.serialize_for_net(BlockType::Full);
     match Block::deserialize_from_net(&bytes) {
         Ok(mut got) => {
@@ -116,6 +127,153 @@ fn check(rep: &mut Report, c: &Case) {
 }
 
 /// full block with `n` payments whose i-th transaction touches `light` iff bit i of `pattern`
+/// one GET over a loopback TCP connection; (status, body)
+async fn http_get(port: u16, path: &str) -> Option<(u16, Vec<u8>)> {
+    use tokio::io::{AsyncReadExt, AsyncWriteExt};
+    let mut s = tokio::net::TcpStream::connect(("127.0.0.1", port)).await.ok()?;
+    let req = format!("GET {} HTTP/1.1\r\nHost: 127.0.0.1\r\nConnection: close\r\n\r\n", path);
+    s.write_all(req.as_bytes()).await.ok()?;
+    let mut buf = vec![];
+    s.read_to_end(&mut buf).await.ok()?;
+    let split = buf.windows(4).position(|w| w == b"\r\n\r\n")?;
+    let head = String::from_utf8_lossy(&buf[..split]).to_string();
+    let status: u16 = head.split_whitespace().nth(1)?.parse().ok()?;
+    let mut body = buf[split + 4..].to_vec();
+    if head.to_ascii_lowercase().contains("transfer-encoding: chunked") {
+        // de-chunk
+        let mut out = vec![];
+        let mut rest = &body[..];
+        loop {
+            let eol = rest.windows(2).position(|w| w == b"\r\n")?;
+            let n = usize::from_str_radix(String::from_utf8_lossy(&rest[..eol]).trim(), 16).ok()?;
+            rest = &rest[eol + 2..];
+            if n == 0 {
+                break;
+            }
+            out.extend_from_slice(rest.get(..n)?);
+            rest = rest.get(n + 2..)?;
+        }
+        body = out;
+    }
+    Some((status, body))
+}
+
+/// the lite block as a light client gets it: the real warp server of saito-rust (hook
+/// `verif_run_server`) serves `/lite-block/<hash>/<key>` from the block files in ./data/blocks; the
+/// key list it projects on is the requester's key plus, when the requester is a connected peer,
+/// the keys that peer registered
+async fn route_slice(ctx: &Ctx, rep: &mut Report, blocks: &[Block], light: &Actor, registered: &Actor, node_pk: PK) {
+    use saito_core::core::consensus::peers::peer::Peer;
+    use saito_core::core::consensus::peers::peer_collection::PeerCollection;
+    use saito_core::core::defs::PrintForLog;
+    let scratch = format!("/verif/out/c18-route-{}-{}", std::process::id(), ctx.shard);
+    let _ = std::fs::remove_dir_all(&scratch);
+    if std::fs::create_dir_all(format!("{}/data/blocks", scratch)).is_err() || std::env::set_current_dir(&scratch).is_err() {
+        rep.inconclusive("route slice: scratch directory could not be set up");
+        return;
+    }
+    for b in blocks {
+        let name = format!("{}/data/blocks/{}-{}.sai", scratch, b.timestamp, hex::encode(b.hash));
+        let _ = std::fs::write(name, block_bytes(b));
+    }
+    // a connected peer (the light client's key) that registered one further key, and an unknown requester
+    let mut peers = PeerCollection::default();
+    let mut peer = Peer::new(7);
+    peer.public_key = Some(light.pk);
+    peer.key_list = vec![registered.pk];
+    peers.index_to_peers.insert(7, peer);
+    peers.address_to_peers.insert(light.pk, 7);
+    let peers = std::sync::Arc::new(saito_core::core::util::verif::RwLock::new(peers));
+    let port = match std::net::TcpListener::bind("127.0.0.1:0").and_then(|l| l.local_addr()) {
+        Ok(a) => a.port(),
+        Err(_) => {
+            rep.inconclusive("route slice: no loopback port");
+            let _ = std::env::set_current_dir("/verif");
+            return;
+        }
+    };
+    let (tx, _rx) = tokio::sync::mpsc::channel(100);
+    let server = saito_rust::network_controller::verif_run_server(tx, port, "127.0.0.1".to_string(), node_pk, peers.clone());
+    let mut up = false;
+    for _ in 0..200 {
+        if tokio::net::TcpStream::connect(("127.0.0.1", port)).await.is_ok() {
+            up = true;
+            break;
+        }
+        tokio::time::sleep(std::time::Duration::from_millis(25)).await;
+    }
+    if !up {
+        rep.inconclusive("route slice: the server did not come up on the loopback port");
+    } else {
+        for b in blocks {
+            // (requester key in the URL, keys the projection must honour)
+            let stranger = registered.pk;
+            let cases: Vec<(PK, Vec<PK>, &str)> = vec![(light.pk, vec![registered.pk, light.pk], "connected-peer"), (stranger, vec![stranger], "unknown-requester")];
+            for (key, keys, who) in cases {
+                let path = format!("/lite-block/{}/{}", hex::encode(b.hash), if b.id % 2 == 0 { key.to_hex() } else { key.to_base58() });
+                rep.count("route_requests");
+                match http_get(port, &path).await {
+                    Some((200, body)) => match Block::deserialize_from_net(&body) {
+                        Ok(mut lite) => {
+                            let _ = lite.generate();
+                            rep.count(&format!("route_lite_blocks_served.{}", who));
+                            let pattern: String = b.transactions.iter().map(|t| if touches(t, &keys) { '1' } else { '0' }).collect();
+                            check_lite(rep, &Case { full: b, keys: keys.clone(), pattern: format!("route-{}-{}", who, pattern) }, lite, "|served=http-route");
+                        }
+                        Err(e) => rep.violation("C18|clause=route-reply-undecodable", &format!("GET {} answered 200 with a body that does not decode as a block: {}", path, e), json!({"kind":"route","path":path})),
+                    },
+                    Some((code, _)) => rep.violation("C18|clause=route-refuses-stored-block", &format!("GET {} answered {}", path, code), json!({"kind":"route","path":path})),
+                    None => rep.inconclusive("route slice: request failed on the loopback connection"),
+                }
+            }
+        }
+    }
+    server.abort();
+    let _ = std::env::set_current_dir("/verif");
+    let _ = std::fs::remove_dir_all(&scratch);
+}
+
+/// a copy of `b` with every numeric header field that is zero set to a distinct non-zero value,
+/// re-signed by its creator: short chains leave most averages and payouts at zero, where a
+/// projection that forgets a field cannot be told from one that copies it
+fn saturate(b: &Block, creator: &Actor) -> Block {
+    let mut c = b.clone();
+    let mut k = 7_000u64;
+    let mut set = |f: &mut u64| {
+        k += 13;
+        if *f == 0 {
+            *f = k;
+        }
+    };
+    set(&mut c.graveyard);
+    set(&mut c.treasury);
+    set(&mut c.burnfee);
+    set(&mut c.difficulty);
+    set(&mut c.avg_total_fees);
+    set(&mut c.avg_fee_per_byte);
+    set(&mut c.avg_nolan_rebroadcast_per_block);
+    set(&mut c.previous_block_unpaid);
+    set(&mut c.avg_total_fees_new);
+    set(&mut c.avg_total_fees_atr);
+    set(&mut c.avg_payout_routing);
+    set(&mut c.avg_payout_mining);
+    set(&mut c.avg_payout_treasury);
+    set(&mut c.avg_payout_graveyard);
+    set(&mut c.avg_payout_atr);
+    set(&mut c.total_payout_routing);
+    set(&mut c.total_payout_mining);
+    set(&mut c.total_payout_treasury);
+    set(&mut c.total_payout_graveyard);
+    set(&mut c.total_payout_atr);
+    set(&mut c.total_fees);
+    set(&mut c.total_fees_new);
+    set(&mut c.total_fees_atr);
+    set(&mut c.fee_per_byte);
+    set(&mut c.total_fees_cumulative);
+    crate::props::c04::reseal(&mut c, creator, false);
+    c
+}
+
 async fn make_block(b: &mut Builder, rng: &mut Rng, parent: &Hash, n: usize, pattern: u64, light: usize, with_gt: bool) -> Option<Block> {
     let mut exclude = vec![];
     let mut txs = vec![];
@@ -178,6 +336,12 @@ pub async fn run(ctx: &Ctx, rep: &mut Report) {
                 rep.count("blocks");
                 check(rep, &Case { full: &block, keys: vec![light_pk], pattern: actual.clone() });
                 if pattern % 7 == 0 {
+                    let creator = b.actors[0].clone();
+                    if block.creator == creator.pk {
+                        let sat = saturate(&block, &creator);
+                        rep.count("blocks_with_every_header_field_nonzero");
+                        check(rep, &Case { full: &sat, keys: vec![light_pk], pattern: format!("{}/saturated-header", actual) });
+                    }
                     check(rep, &Case { full: &block, keys: vec![], pattern: format!("{}/nokeys", actual) });
                     check(rep, &Case { full: &block, keys: vec![light_pk, other_pk], pattern: format!("{}/2keys", actual) });
                     check(rep, &Case { full: &block, keys: vec![b.actors[0].pk], pattern: format!("{}/creator", actual) });
@@ -212,10 +376,27 @@ pub async fn run(ctx: &Ctx, rep: &mut Report) {
     let tip = b.grow(&mut crng, &parent, 6, 4, 50).await;
     for h in b.store.ancestors(&tip) {
         let blk = b.store.get(&h).block.clone();
+        let creator = b.actors[0].clone();
+        if blk.creator == creator.pk {
+            let sat = saturate(&blk, &creator);
+            rep.count("blocks_with_every_header_field_nonzero");
+            let pattern: String = sat.transactions.iter().map(|t| if touches(t, &[light_pk]) { '1' } else { '0' }).collect();
+            check(rep, &Case { full: &sat, keys: vec![light_pk], pattern: format!("chain-{}-{}/saturated-header", sat.id, pattern) });
+        }
         for keys in [vec![light_pk], vec![b.actors[0].pk], vec![b.actors[1].pk, b.actors[2].pk]] {
             let pattern: String = blk.transactions.iter().map(|t| if touches(t, &keys) { '1' } else { '0' }).collect();
             check(rep, &Case { full: &blk, keys, pattern: format!("chain-{}-{}", blk.id, pattern) });
         }
+    }
+    // the serving path itself: real chain blocks through the node's HTTP route
+    if ctx.mine(0) || ctx.shards <= 1 {
+        let served: Vec<Block> = b.store.ancestors(&tip).iter().map(|h| {
+            let mut blk = b.store.get(h).block.clone();
+            let _ = blk.generate();
+            blk
+        }).collect();
+        let (l, r, n) = (b.actors[light].clone(), b.actors[4].clone(), b.actors[0].pk);
+        route_slice(ctx, rep, &served, &l, &r, n).await;
     }
     rep.sample(json!({"example":"block of n payments; bit i of the pattern decides whether tx i pays to / spends from the light client's key; lite = generate_lite_block([light key])","max_exhaustive_n": max_exh}));
 }
